@@ -84,9 +84,7 @@ Q_ON_TASK = "acts::scheduler::scheduler::Scheduler::on_task"
 Q_EMIT_PROC = "acts::scheduler::scheduler::Scheduler::emit_proc_event"
 # calls that cannot change the state of a task of *this* process synchronously although the call
 # graph (through stored handlers) says they might; each with its reason (checked by C02.R7)
-NO_HAVOC = {
-    Q_EMIT_PROC: "the on_proc handler only removes/restores *other* processes and spawns return_to_act asynchronously",
-}
+NO_HAVOC = {}
 STATE_PRED = re.compile(r"^acts::scheduler::state::TaskState::(is_[a-z_]+)$")
 TRY_BRANCH = re.compile(r"as std::ops::Try>::branch$")
 FROM_RESIDUAL = re.compile(r"FromResidual<.*>>::from_residual$|FromResidual::from_residual$")
@@ -124,6 +122,22 @@ def const_state_of_other(pa, fn, b, recv):
 
 
 
+# registration of stored handlers and the functions that invoke them synchronously
+REGISTER = re.compile(r"^acts::(scheduler::scheduler::Scheduler|event::emitter::Emitter|export::channel::Channel)::on_(proc|task|tick|message|start|complete|error)$")
+HANDLER_EMITTERS = {
+    "task": "acts::event::emitter::Emitter::emit_task_event_with_extra",
+    "proc": "acts::event::emitter::Emitter::emit_proc_event",
+}
+# generic / dyn calls of these std traits are not fanned out over the workspace's impls: they are
+# value conversions; Summaries.value_traits_are_pure() checks that no local impl writes a task state
+VALUE_TRAITS = {"std::default::Default", "std::clone::Clone", "std::convert::From", "std::convert::Into", "std::convert::TryFrom",
+                "std::convert::TryInto", "std::string::ToString", "std::fmt::Display", "std::fmt::Debug", "std::cmp::PartialEq",
+                "std::cmp::Eq", "std::cmp::PartialOrd", "std::cmp::Ord", "std::hash::Hash", "std::convert::AsRef", "std::borrow::Borrow",
+                "std::ops::Deref", "std::ops::DerefMut", "std::str::FromStr", "serde::Serialize", "serde::Deserialize", "serde::ser::Serialize",
+                "serde::de::Deserialize", "std::iter::Iterator", "std::iter::IntoIterator", "std::ops::Drop", "std::borrow::ToOwned"}
+VALUE_TRAIT_METHODS = set()
+
+
 class Summaries:
     """whole-program summaries over the call graph: which functions may (transitively) write a
     task state, reach an event callee, or return Err"""
@@ -131,7 +145,17 @@ class Summaries:
     def __init__(self, model):
         self.m = model
         self.edges = collections.defaultdict(set)
-        timpl = model.trait_impls()
+        self.value_trait_impls = set()
+        pa_ = Prov(model, "alias")
+        # handlers stored by a registration call run later, from the matching emit function
+        self.handlers = collections.defaultdict(list)  # registration name -> [closure q]
+        for f in model.fns.values():
+            for c in f.calls():
+                mm = REGISTER.search(c.q)
+                if mm and len(c.args) >= 2:
+                    r = pa_.root(f, c.args[-1])
+                    if r[0] == "closure" and r[1] in model.fns:
+                        self.handlers[mm.group(2)].append(r[1])
         for f in model.fns.values():
             for c in f.calls():
                 q = c.q
@@ -139,31 +163,43 @@ class Summaries:
                     self.edges[f.q].add(q)
                 elif c.kind in ("virtual", "generic"):
                     decl = c.callee.get("decl") or ""
-                    for key, impls in timpl.items():
-                        if key.endswith("::" + decl) or key == decl or key.split("::", 1)[-1] == decl:
-                            for i in impls:
-                                if i in model.fns:
-                                    self.edges[f.q].add(i)
-            # closures created in f may run in f (or be stored; conservatively: f -> closure);
-            # an async block that is handed to a spawn runs later, on another task: no synchronous edge
-            spawned = set()
-            pa_ = Prov(model, "alias")
+                    if decl in VALUE_TRAIT_METHODS or decl.rsplit("::", 1)[0] in VALUE_TRAITS:
+                        continue  # see value_traits_are_pure()
+                    for i in self.impls_of(c):
+                        self.edges[f.q].add(i)
+            # closures created in f may run in f; not when they are handed to a spawn (they run later,
+            # on another task) or to a handler registration (they run from the emit function)
+            deferred = set()
             for c in f.calls():
-                if re.search(r"(^|::)spawn(_blocking|_local)?$", c.q) and ("tokio" in c.q):
+                if (re.search(r"(^|::)spawn(_blocking|_local)?$", c.q) and "tokio" in c.q) or REGISTER.search(c.q):
                     for a in c.args:
                         r = pa_.root(f, a)
                         if r[0] == "closure":
-                            spawned.add(r[1])
+                            deferred.add(r[1])
             for b in f.blocks:
                 for s in b["s"]:
                     if s[0] == "A" and s[2][0] in ("closure", "coroutine", "coroutine_closure") and s[2][1] in model.fns:
-                        if s[2][1] in spawned:
+                        if s[2][1] in deferred:
                             continue
                         self.edges[f.q].add(s[2][1])
+        # synchronous handler invocation
+        for kind, emit_q in HANDLER_EMITTERS.items():
+            for h in self.handlers.get(kind, []):
+                self.edges[emit_q].add(h)
         self._reach = {}
-        self.may_write = self.reaches(STATE_WRITERS)
+        self.may_write = self.reaches({Q_SET_STATE, Q_SET_ERR})
         self._may_fail = None
         self.h_sites = set()
+
+    def value_traits_are_pure(self):
+        """[(impl fn q, trait)] of local impls of std value traits (Default, Clone, From, ...) that can
+        reach a task-state write: must be empty for the call graph's treatment of generic calls of
+        those traits to be sound"""
+        bad = []
+        for f in self.m.fns.values():
+            if f.impl_trait and f.impl_trait.split("<")[0] in VALUE_TRAITS and f.q in self.may_write:
+                bad.append((f.q, f.impl_trait))
+        return bad
 
     def reaches(self, targets):
         """functions that transitively call one of `targets` (targets included)"""
@@ -783,7 +819,9 @@ class TS:
         inlined = False
         if ev is None or ev[0] in ("RETARGET",):
             pass
-        if q not in NEVER_INLINE and targets and depth < self.maxdepth:
+        # emitting *another* task is decided at the call site, where that task's state is visible
+        skip_inline = (q == Q_EMIT_TASK and ev is not None and ev[0] == "EMIT_OTHER")
+        if q not in NEVER_INLINE and targets and depth < self.maxdepth and not skip_inline:
             tp = set()
             cp = set()
             for i, a in enumerate(args):
